@@ -121,7 +121,7 @@ pub fn explore(
     run: &mut dyn FnMut(&mut Chooser) -> bool,
 ) -> ExploreStats {
     let mut stats = ExploreStats::default();
-    stats.executions_by_dev = vec![0; bound + 1];
+    stats.executions_by_dev = vec![0; bound.min(8) + 1];
     let mut stack: Vec<Vec<u16>> = vec![vec![]];
     while let Some(prefix) = stack.pop() {
         let mut ch = Chooser::new(&prefix, max_points);
@@ -134,6 +134,9 @@ pub fn explore(
         );
         let dev = prefix.iter().filter(|c| **c != 0).count();
         stats.executions += 1;
+        if stats.executions_by_dev.len() <= dev {
+            stats.executions_by_dev.resize(dev + 1, 0);
+        }
         stats.executions_by_dev[dev] += 1;
         stats.transitions += ch.choices.len() as u64;
         let new_nodes = if prefix.is_empty() {
